@@ -135,7 +135,7 @@ fn exec(b: &mut N, op: &[&str]) -> Option<String> {
 pub fn run_case(desc: &str, ops: &[String]) {
     let toks: Vec<&str> = desc.split_whitespace().collect();
     let mut it = toks.iter();
-    let mut tree = match parse(&mut it) {
+    let tree = match parse(&mut it) {
         Some(t) if it.next().is_none() => t,
         _ => {
             println!("bad-case {}", desc);
@@ -143,13 +143,19 @@ pub fn run_case(desc: &str, ops: &[String]) {
         }
     };
     println!("t {}", desc);
-    for op in ops {
+    let mut tree = Some(tree);
+    for (k, op) in ops.iter().enumerate() {
         let w: Vec<&str> = op.split_whitespace().collect();
         println!("try {}", op); // a call that never returns (or kills the process) is attributed to this op
-        match quiet(|| exec(&mut tree, &w)) {
+        match quiet(|| exec(tree.as_mut().unwrap(), &w)) {
             Ok(Some(r)) => {
                 println!("o {} -> {}", op, r);
-                println!("st {}", tree.describe());
+                if k + 1 == ops.len() {
+                    // after the last op the state is read by taking the adapters apart (into_inner, first_mut / last_mut, get_mut)
+                    println!("st {}", tree.take().unwrap().describe_into());
+                } else {
+                    println!("st {}", tree.as_ref().unwrap().describe());
+                }
             }
             Ok(None) => {
                 println!("bad-op {}", op);
